@@ -2,7 +2,6 @@ package formatter
 
 import (
 	"bytes"
-	"strings"
 
 	"github.com/ysugimoto/falco/v2/ast"
 )
@@ -344,7 +343,17 @@ func (f *Formatter) formatSwitchStatement(stmt *ast.SwitchStatement) string {
 
 	buf.Reset()
 	buf.WriteString("switch ")
-	buf.WriteString(strings.TrimSpace(stmt.Control.String()))
+	// The control expression is printed by the formatter like any other expression:
+	// the AST stringer prints decoded string values and joins line comments with the code that follows
+	if v := f.formatComment(stmt.Control.Leading, "", 0); v != "" {
+		buf.WriteString(v + " ")
+	}
+	buf.WriteString("(")
+	buf.WriteString(f.formatExpression(stmt.Control.Expression).String())
+	buf.WriteString(")")
+	if v := f.formatComment(stmt.Control.Trailing, "", 0); v != "" {
+		buf.WriteString(" " + v)
+	}
 	buf.WriteString(" {\n")
 	for _, c := range stmt.Cases {
 		// If indent_case_labels is false, subtract 1 nest level
